@@ -420,6 +420,8 @@ pub struct World<'a> {
     pub facts: Facts,
     pub iterations: u64,
     pub error: Option<EvalErr>,
+    /// R5: number of (fact, origin) pairs after each productive iteration
+    pub fact_counts: Vec<usize>,
 }
 
 struct OwnedRule<'a> {
@@ -446,6 +448,7 @@ impl<'a> World<'a> {
             facts,
             iterations: 0,
             error: None,
+            fact_counts: vec![],
         }
     }
 
@@ -510,6 +513,7 @@ impl<'a> World<'a> {
                 break;
             }
             self.iterations += 1;
+            self.fact_counts.push(self.facts.len());
             if self.iterations >= max_rounds {
                 break;
             }
